@@ -55,6 +55,8 @@ Cfg == cfg
 \*  sig   \in {"none","verify_log","verify"}      fetch \in {"actively","background"}
 \*  conf  \in {"none","url","file"}  (is U configured)   trustA: is CA A a configured trusted signer
 \*  ocsp  \in {"noaia","good","revoked","down"}   what c1's OCSP responder does;  aia: ocsp_aia_strict
+\*        or "dyn" / "dyncache": the responder changes its behaviour over time (variable resp, action Respond), with the
+\*        OCSP cache off / on (default_cache_duration of an hour: an authentic answer is remembered in ocache)
 CrlOn  == Cfg.mode \in {"unset", "prefer_ocsp", "prefer_crl", "crl_only"}
 OcspOn == Cfg.mode \in {"unset", "prefer_ocsp", "prefer_crl", "ocsp_only"}
 Trusted == IF Cfg.trustA THEN {"A"} ELSE {}
@@ -67,9 +69,12 @@ VARIABLES
   accepted,   \* ghost: [Locs -> Docs \cup {NoDoc}] the document that policy says is in force at l
   verified,   \* ghost: [Locs -> BOOLEAN] the accepted document's signer certificate was resolved and persisted
   known,      \* ghost: [Locs -> BOOLEAN] the running instance knows l (configured, or seen in a CDP since start)
+  resp,       \* what c1's responder does right now: "good" | "revoked" | "down" (constant unless Cfg.ocsp is dynamic)
+  ocache,     \* the OCSP cache entry of c1: "none" | "good" | "revoked" (only used with Cfg.ocsp = "dyncache")
   out,        \* observable result of the last action
   steps
-vars == <<cfg, phase, ent, bg, accepted, verified, known, out, steps>>
+vars == <<cfg, phase, ent, bg, accepted, verified, known, resp, ocache, out, steps>>
+Dyn == Cfg.ocsp \in {"dyn", "dyncache"}
 
 Empty == [present |-> FALSE, loaded |-> FALSE, keys |-> {}, meta |-> FALSE, locs |-> FALSE, signer |-> "none",
           sigFailed |-> FALSE, pending |-> "none", ctx |-> {}]
@@ -162,9 +167,9 @@ Step == (MaxSteps = 0 \/ steps < MaxSteps) /\ steps' = IF MaxSteps = 0 THEN 0 EL
 Loaded(en) == [l \in Locs |-> en[l].present /\ en[l].loaded]
 Fet0 == [l \in Locs |-> 0]
 
-Emit(op, o) == Export => PrintT(<<"EDGE", ToJson([from |-> [cfg |-> cfg, phase |-> phase, ent |-> ent, bg |-> bg, accepted |-> accepted, verified |-> verified, known |-> known],
+Emit(op, o) == Export => PrintT(<<"EDGE", ToJson([from |-> [cfg |-> cfg, phase |-> phase, ent |-> ent, bg |-> bg, accepted |-> accepted, verified |-> verified, known |-> known, resp |-> resp, ocache |-> ocache],
                                                     op |-> op,
-                                                    to |-> [cfg |-> cfg', phase |-> phase', ent |-> ent', bg |-> bg', accepted |-> accepted', verified |-> verified', known |-> known'],
+                                                    to |-> [cfg |-> cfg', phase |-> phase', ent |-> ent', bg |-> bg', accepted |-> accepted', verified |-> verified', known |-> known', resp |-> resp', ocache |-> ocache'],
                                                     expect |-> o])>>)
 
 Ghost(o) == [o EXCEPT !.listed = [c \in {"c1", "c2", "c3"} |-> Listed(CertById(c))'],
@@ -217,14 +222,22 @@ Provision(dU) ==
                 /\ out' = Ghost([kind |-> "provision", ok |-> FALSE, acceptable |-> (~CrlOn \/ Cfg.conf = "none" \/ PolicyAccepts(dU, Trusted)),
                                  loaded |-> Loaded(ent'), listed |-> <<>>, inforce |-> <<>>,
                                  fetch |-> [Fet0 EXCEPT !["U"] = p[5]]])
+  /\ UNCHANGED <<resp, ocache>>
   /\ Emit(<<"provision", dU>>, out')
 
 \* ---- Handshake --------------------------------------------------------------------------------
+\* requirement (C02/C03): a still valid cache entry answers; otherwise what the responder says now; no answer: strict denies
+OcspAsked(c) == OcspOn /\ c.id = "c1" /\ Cfg.ocsp # "noaia"
 OcspVerdict(c) ==
-  IF ~OcspOn \/ c.id # "c1" \/ Cfg.ocsp = "noaia" THEN "accept"
-  ELSE IF Cfg.ocsp = "revoked" THEN "revoked"
-  ELSE IF Cfg.ocsp = "down" /\ Cfg.aia THEN "error"
+  IF ~OcspAsked(c) THEN "accept"
+  ELSE IF ocache # "none" THEN (IF ocache = "revoked" THEN "revoked" ELSE "accept")
+  ELSE IF resp = "revoked" THEN "revoked"
+  ELSE IF resp = "down" /\ Cfg.aia THEN "error"
   ELSE "accept"
+\* what the OCSP mechanism says when the responder is asked now (a cache is optional: an implementation that asks again is right too)
+OcspFresh(c) == IF ~OcspAsked(c) THEN "accept" ELSE IF resp = "revoked" THEN "revoked" ELSE IF resp = "down" /\ Cfg.aia THEN "error" ELSE "accept"
+\* only an authentic answer is remembered, and only with the cache on; a failed query leaves nothing behind
+OcacheAfter(c) == IF OcspAsked(c) /\ Cfg.ocsp = "dyncache" /\ ocache = "none" /\ resp \in {"good", "revoked"} THEN resp ELSE ocache
 
 CrlLookup(c, en) == \E l \in Locs : en[l].present /\ en[l].loaded /\ <<NameOf(c.ca), c.serial>> \in en[l].keys
 CrlVerdict(c, en) ==
@@ -239,7 +252,8 @@ Handshake(c, d) ==
      IF ov # "accept" \/ ~CrlOn
      THEN /\ UNCHANGED <<phase, ent, bg, accepted, verified, known>>
           /\ out' = Ghost([kind |-> "handshake", cert |-> c.id, verdict |-> ov, cause |-> "ocsp", loaded |-> Loaded(ent), fetch |-> Fet0,
-                           listed |-> <<>>, inforce |-> <<>>, intake |-> "none"])
+                           listed |-> <<>>, inforce |-> <<>>, intake |-> "none",
+                           alt |-> IF OcspFresh(c) # "accept" THEN OcspFresh(c) ELSE IF ~CrlOn THEN "accept" ELSE "any"])
      ELSE LET useD   == c.cdp = "D"
               ctx    == ChainCtx(c)
               added  == useD /\ ~ent["D"].present
@@ -256,7 +270,9 @@ Handshake(c, d) ==
              /\ UNCHANGED phase
              /\ out' = Ghost([kind |-> "handshake", cert |-> c.id, verdict |-> CrlVerdict(c, en1), cause |-> "crl", loaded |-> Loaded(en1),
                               fetch |-> [Fet0 EXCEPT !["D"] = IF doLoad THEN 1 ELSE 0],
-                              listed |-> <<>>, inforce |-> <<>>, intake |-> IF doLoad THEN "firstload" ELSE "none"])
+                              listed |-> <<>>, inforce |-> <<>>, intake |-> IF doLoad THEN "firstload" ELSE "none",
+                              alt |-> IF OcspFresh(c) # "accept" THEN OcspFresh(c) ELSE CrlVerdict(c, en1)])
+  /\ resp' = resp /\ ocache' = OcacheAfter(c)
   /\ Emit(<<"handshake", c.id, d>>, out')
 
 \* ---- BgLoad: the forced background update spawned by a handshake that added an entry runs ---------
@@ -267,6 +283,7 @@ BgLoad(o) ==
   /\ LET g == GhostPass(ent, o) IN accepted' = g[1] /\ verified' = g[2]
   /\ UNCHANGED <<phase, known>>
   /\ out' = Ghost([kind |-> "pass", loaded |-> Loaded(ent'), fetch |-> PassFetches(ent, o), listed |-> <<>>, inforce |-> <<>>, origin |-> o])
+  /\ UNCHANGED <<resp, ocache>>
   /\ Emit(<<"bgload", o>>, out')
 
 \* ---- RefreshAll: a ticker tick / forced update runs one pass over all entries ---------------------
@@ -277,6 +294,7 @@ RefreshAll(o) ==
   /\ LET g == GhostPass(ent, o) IN accepted' = g[1] /\ verified' = g[2]
   /\ UNCHANGED <<phase, bg, known>>
   /\ out' = Ghost([kind |-> "pass", loaded |-> Loaded(ent'), fetch |-> PassFetches(ent, o), listed |-> <<>>, inforce |-> <<>>, origin |-> o])
+  /\ UNCHANGED <<resp, ocache>>
   /\ Emit(<<"refresh", o>>, out')
 
 \* ---- Restart: Cleanup, then a new instance on the same work_dir is provisioned ---------------------
@@ -284,7 +302,7 @@ RefreshAll(o) ==
 Restart ==
   /\ phase = "up" /\ Step /\ ~bg
   /\ \E nc \in CfgSpace :
-       /\ nc.disk = cfg.disk /\ nc.conf = cfg.conf          \* the same work_dir, storage and configured locations; policy options may change
+       /\ nc.disk = cfg.disk /\ nc.conf = cfg.conf /\ nc.ocsp = cfg.ocsp   \* the same work_dir, storage, configured locations and responder; policy options may change
        /\ cfg' = nc
        /\ LET keep(e) == IF cfg.disk THEN [e EXCEPT !.present = FALSE, !.loaded = FALSE, !.sigFailed = FALSE, !.pending = "none", !.ctx = {}] ELSE Empty
               en0 == [l \in Locs |-> keep(ent[l])]
@@ -294,6 +312,7 @@ Restart ==
           IN /\ phase' = "new" /\ ent' = en0 /\ accepted' = acc0 /\ verified' = ver0
              /\ known' = [l \in Locs |-> FALSE] /\ bg' = FALSE
              /\ out' = NoOut
+  /\ resp' = resp /\ ocache' = "none"      \* Cleanup empties the OCSP cache
   /\ Emit(<<"cleanup">>, out')
 
 \* ---- a handshake without any verified chain: nothing to check, nothing touched ------------------------
@@ -301,20 +320,31 @@ HandshakeNoChain ==
   /\ phase = "up" /\ Step
   /\ UNCHANGED <<phase, ent, bg, accepted, verified, known>>
   /\ out' = Ghost([kind |-> "handshake", cert |-> "nochain", verdict |-> "accept", cause |-> "nochain", loaded |-> Loaded(ent), fetch |-> Fet0,
-                   listed |-> <<>>, inforce |-> <<>>, intake |-> "none"])
+                   listed |-> <<>>, inforce |-> <<>>, intake |-> "none", alt |-> "accept"])
+  /\ UNCHANGED <<resp, ocache>>
   /\ Emit(<<"handshake-nochain">>, out')
+
+\* ---- the responder of c1 changes its behaviour (environment; only in the dynamic configurations) ------------
+Respond(r) ==
+  /\ phase = "up" /\ Step /\ Dyn /\ OcspOn /\ r \in {"good", "revoked", "down"} /\ r # resp
+  /\ resp' = r
+  /\ UNCHANGED <<phase, ent, bg, accepted, verified, known, ocache>>
+  /\ out' = Ghost([kind |-> "respond", loaded |-> Loaded(ent), fetch |-> Fet0, listed |-> <<>>, inforce |-> <<>>])
+  /\ Emit(<<"respond", r>>, out')
 
 Next == \/ /\ UNCHANGED cfg
            /\ \/ \E d \in DocsU \cup {Down} : Provision(d)
               \/ \E o \in [Locs -> Docs] : BgLoad(o) \/ RefreshAll(o)
               \/ \E c \in Certs, d \in Docs : Handshake(c, d)
               \/ HandshakeNoChain
+              \/ \E r \in {"good", "revoked", "down"} : Respond(r)
         \/ Restart
 
 Init == /\ cfg \in CfgSpace
         /\ phase = "new"
         /\ ent = [l \in Locs |-> Empty] /\ bg = FALSE
         /\ accepted = [l \in Locs |-> NoDoc] /\ verified = [l \in Locs |-> FALSE] /\ known = [l \in Locs |-> FALSE]
+        /\ resp = (IF cfg.ocsp \in {"dyn", "dyncache"} THEN "good" ELSE cfg.ocsp) /\ ocache = "none"
         /\ out = NoOut /\ steps = 0
 Spec == Init /\ [][Next]_vars
 
@@ -348,6 +378,8 @@ ModePromise == [][\A c \in Certs : HS(c) => out'.verdict = Promise(c, ent')]_var
 \* C16/C19: a configured CRL that is acceptable under the signature mode never makes Provision fail
 ProvisionAcceptsAcceptable == [][(out'.kind = "provision" /\ ~out'.ok) => ~out'.acceptable]_vars
 ProvisionLoads == (phase = "up" /\ CrlOn /\ Cfg.conf # "none") => (ent["U"].present /\ ent["U"].loaded)
-View == <<cfg, phase, ent, bg, accepted, verified, known>>
+View == <<cfg, phase, ent, bg, accepted, verified, known, resp, ocache>>
+\* C14/C02 at validator level: the cache holds only what the responder said authentically, failures are not remembered
+OcacheSound == [][ocache' # ocache => (ocache' = "none" \/ (IsHandshake /\ ocache = "none" /\ ocache' = resp))]_vars
 TypeOK == phase \in {"new", "up", "failed"} /\ bg \in BOOLEAN
 =============================================================================
